@@ -22,6 +22,7 @@ positions with every request type, and reports the scenario that kills or stalls
 import LuaHelper.Model.Annot
 import LuaHelper.Gen.Sites
 import LuaHelper.Gen.Preds
+import LuaHelper.Gen.Shapes
 namespace LuaHelper.C01
 open LuaHelper.Annot
 
@@ -125,5 +126,92 @@ theorem makeVarIndex_range (i : Int) :
 /-- what the conversion it replaced did at position 256 (uint8 arithmetic): the index 0 -/
 theorem old_varIndex_wraps : ((256 : Nat) % 256 = 0) ∧ (BitVec.ofNat 8 256 = 0#8) := by decide
 #print axioms old_varIndex_wraps
+
+/-! ### the retry loop of go-to-definition terminates (repair 90a73b5) -/
+
+/-- the state of FindVarDefineInfo's retry loop that matters for termination: the length of the name chain and
+    whether the owner of a table-constructor key has been put in front (DefineVarStruct.OwnerFlag) -/
+structure RS where
+  len : Nat
+  owner : Bool
+deriving DecidableEq, Repr
+
+/-- one unsuccessful round: the owner lookup of getVarCommonFuncParam (it may put `ins` ≤ 2 names in front, only for a
+    one-name chain and — since the repair — only once), then the chain is cut by one; `none` = the loop returns -/
+def retryStep (ins : Nat) (s : RS) : Option RS :=
+  let s1 : RS := if s.len == 1 && !s.owner && ins > 0 then { len := s.len + ins, owner := true } else s
+  if s1.len - 1 == 0 then none else some { s1 with len := s1.len - 1 }
+
+/-- the round as it was: the owner lookup ran in every round -/
+def retryStepOld (ins : Nat) (s : RS) : Option RS :=
+  let s1 : RS := if s.len == 1 && ins > 0 then { s with len := s.len + ins } else s
+  if s1.len - 1 == 0 then none else some { s1 with len := s1.len - 1 }
+
+def retryMeasure (s : RS) : Nat := 2 * s.len + (if s.owner then 0 else 5)
+
+/-- every unsuccessful round makes the state strictly smaller, whatever the owner lookup finds -/
+theorem retry_decreases (ins : Nat) (hi : ins ≤ 2) (s s' : RS) (h : retryStep ins s = some s') :
+    retryMeasure s' < retryMeasure s := by
+  unfold retryStep at h
+  by_cases hc : (s.len == 1 && !s.owner && ins > 0) = true
+  · simp only [hc, if_true] at h
+    simp only [Bool.and_eq_true, beq_iff_eq, Bool.not_eq_true', decide_eq_true_eq] at hc
+    obtain ⟨⟨h1, h2⟩, h3⟩ := hc
+    split at h
+    · cases h
+    · cases h
+      unfold retryMeasure
+      simp [h1, h2]
+      omega
+  · have hc' : (s.len == 1 && !s.owner && ins > 0) = false := by simpa using hc
+    simp only [hc', Bool.false_eq_true, if_false] at h
+    split at h
+    · cases h
+    · rename_i hne
+      cases h
+      unfold retryMeasure
+      simp at hne ⊢
+      omega
+
+/-- rounds with the owner lookups `inss` (one per round) -/
+def retryRun : List Nat → RS → Option RS
+  | [], s => some s
+  | i :: r, s => match retryStep i s with
+    | none => none
+    | some s' => retryRun r s'
+
+/-- the loop returns after at most `retryMeasure s` rounds, whatever the owner lookups find -/
+theorem retry_terminates (inss : List Nat) (hi : ∀ i ∈ inss, i ≤ 2) (s : RS) (hl : retryMeasure s < inss.length) :
+    retryRun inss s = none := by
+  induction inss generalizing s with
+  | nil => simp at hl
+  | cons i r ih =>
+    unfold retryRun
+    cases h : retryStep i s with
+    | none => rfl
+    | some s' =>
+      simp only
+      have hd := retry_decreases i (hi i (by simp)) s s' h
+      apply ih (fun j hj => hi j (by simp [hj])) s'
+      simp at hl
+      omega
+
+/-- as it was: on a one-name chain whose owner is found the round gives the same state back — `t = {t=1}` with another
+    definition of t never returned -/
+theorem retry_looped_before : retryStepOld 1 ⟨1, false⟩ = some ⟨1, false⟩ := by decide
+theorem retry_fixed_now : retryRun [1, 1, 1] ⟨1, false⟩ = none := by decide
+#print axioms retry_decreases
+#print axioms retry_terminates
+#print axioms retry_looped_before
+#print axioms retry_fixed_now
+
+/-- the guard and the mark of the owner lookup, and the cut of the retry loop, as they stand in /repo now (regenerated on
+    every retryRun): `retryStep` is written after them -/
+theorem owner_lookup_shape :
+    Gen.ownerLookup =
+      ["subLen:len(varStruct.StrVec)-1", "cut:varStruct.StrVec[0:subLen]",
+       "guard:len(varStruct.StrVec)==1&&!varStruct.BracketsFlag&&!varStruct.OwnerFlag", "sets:varStruct.OwnerFlag=true"] := by
+  decide
+#print axioms owner_lookup_shape
 
 end LuaHelper.C01
